@@ -162,7 +162,7 @@ def __init__(self, sample_rate=3*u.GHz, fch1=0*u.GHz, ascending=True, num_pols=2
                           what=('heap', 'calls'), no_inline=(DS + 'get_samples', 'voltage.data_stream.estimate_stats'), expand=False,
                           ref_attrs_only=True)
     calls = [e for e in I.events if e.kind == 'call' and e.data.get('name') == DS + 'get_samples']
-    rest = [e for e in I.events if e.kind == 'store' and e.data.get('target') == 'attr' and e.data.get('name') in ('t_start', 'start_obs') and e.func.short == un.short]
+    rest = [e for e in I.events if e.kind == 'store' and e.data.get('target') == 'attr' and e.data.get('name') in ('t_start', 'start_obs') and e.owner == un.short]
     ok = bool(calls) and len(rest) >= 2 and all(e.seq > calls[-1].seq and not e.pc for e in rest)
     ctx.ob('RESTORE', 'the clock and start flag are re-assigned from the saved values after the request', un, ok,
            {'request': [e.text() for e in calls], 'restores': [e.text() for e in rest]}, node=un.node, construct='restore after get_samples')
